@@ -113,12 +113,14 @@ def Atom.text : Atom → Str
 /-! ### expressions -/
 
 inductive Expr where
-  | var (n : Name)
+  | var (n : Name)          -- a name under lookup='lenient'
+  | svar (n : Name)         -- a name under lookup='strict' (the default): unbound → UndefinedError
   | lit (v : Val)
   | eq (a b : Expr)
   | not (a : Expr)
   | len (a : Expr)
   | ix (a i : Expr)
+  | six (a i : Expr)        -- indexing under lookup='strict': the missing-member fallback raises UndefinedError
   deriving DecidableEq, Repr, Inhabited
 
 def vbool (b : Bool) : Val := .atom (.bool b)
@@ -172,6 +174,10 @@ def pyLen : Val → Except Err Val
     scoped environment of the documentation semantics) -/
 def eval (look : Name → Val) : Expr → Except Err Val
   | .var n => .ok (look n)
+  | .svar n =>
+      match look n with
+      | .undef => .error .undefined
+      | v => .ok v
   | .lit v => .ok v
   | .eq a b => do
       let x ← eval look a
@@ -188,6 +194,12 @@ def eval (look : Name → Val) : Expr → Except Err Val
       let x ← eval look a
       let k ← eval look i
       lookupItem x k
+  | .six a i => do
+      let x ← eval look a
+      let k ← eval look i
+      match lookupItem x k with
+      | .ok .undef => .error .undefined     -- StrictLookup.undefined raises
+      | r => r
 
 def evalArgs (look : Name → Val) : List Expr → Except Err (List Val)
   | [] => .ok []
